@@ -241,6 +241,17 @@ def bv_binop(op, a, b):
             return a.and_const(b.v)
         if op == 'BitOr':
             return a.or_(bv_of_int(b.v, len(a.e)))
+    if op in ('Lt', 'Le', 'Gt', 'Ge') and (isinstance(a, BV) and isinstance(b, Int) or isinstance(a, Int) and isinstance(b, BV)):
+        # a word with known-zero / known-one bits against a constant: decided when its range settles the comparison
+        if isinstance(a, Int):
+            a, b, op = b, a, {'Lt': 'Gt', 'Le': 'Ge', 'Gt': 'Lt', 'Ge': 'Le'}[op]
+        hi = sum((0 if x == 0 else 1) << i_ for i_, x in enumerate(a.e))
+        lo = sum((1 if x == 1 else 0) << i_ for i_, x in enumerate(a.e))
+        if op == 'Lt' and hi < b.v or op == 'Le' and hi <= b.v or op == 'Gt' and lo > b.v or op == 'Ge' and lo >= b.v:
+            return Int(1, 1)
+        if op == 'Lt' and lo >= b.v or op == 'Le' and lo > b.v or op == 'Gt' and hi <= b.v or op == 'Ge' and hi < b.v:
+            return Int(0, 1)
+        return None
     if isinstance(a, Int) and isinstance(b, BV):
         if op == 'BitAnd':
             return b.and_const(a.v)
@@ -671,8 +682,8 @@ class Frame:
                         v = v.items[e[1]]
                         continue
                     return TOP
-                if e[0] == 'i':
-                    iv = self.store.get(e[1])
+                if e[0] in ('i', 'iv'):
+                    iv = self.store.get(e[1]) if e[0] == 'i' else e[1]
                     if hasattr(v, 'lookup_contract'):
                         v = v.lookup_contract(iv)
                         continue
@@ -1139,6 +1150,21 @@ class Interp:
             # references are resolved syntactically by the Resolver; keep an explicit Ref
             # only for locals that are not single-assignment temps
             root, proj = fr.root_of(rv['place'])
+            # a reference designates the element the index selects *now*: bind the index value into the projection
+            # (it may outlive the index variable, e.g. when a helper returns `&table[i]`)
+            if any(e[0] == 'i' for e in proj):
+                bound = []
+                for e in proj:
+                    if e[0] == 'i':
+                        iv = fr.store.get(e[1])
+                        if isinstance(iv, Int):
+                            bound.append(['ci', iv.v, 0, False])
+                            continue
+                        if iv is not None and iv is not TOP:
+                            bound.append(['iv', iv])
+                            continue
+                    bound.append(e)
+                proj = bound
             fr.storev(dst, Ref(root, proj))
         elif k == 'agg':
             kind = rv['kind']
@@ -1853,9 +1879,9 @@ class Interp:
                         break
                     val = self._ref_value(fr, val)
                 key = ('arg', len(nested), len(fr.store))
-                nested[key] = reroot(val, depth + 1) if isinstance(val, Agg) else val
+                nested[key] = reroot(val, depth + 1) if (isinstance(val, Agg) and type(val) is Agg) else val
                 return Ref(key, [])
-            if isinstance(v, Agg) and depth < 6:
+            if isinstance(v, Agg) and type(v) is Agg and depth < 6:
                 return Agg([reroot(x, depth + 1) for x in v.items], v.kind)
             return v
         for i, a in enumerate(t['args']):
